@@ -181,6 +181,7 @@ impl<T, N: ArrayLength> IntrusiveArrayBuilder<T, N> {
             array, position: 0
         }
     }
+    proof fn reach_new(array: Slots<T, N>) requires array.ok(), array.all_dead(), { assert(false); } /*OB:canary.new:*/
 
     // extracted from src/internal.rs:83  `fn extend(&mut self, source: impl Iterator<Item = T>)`
     pub fn extend<I: ForeignIter<T>>(&mut self, source: &mut I)
@@ -230,6 +231,7 @@ impl<T, N: ArrayLength> IntrusiveArrayBuilder<T, N> {
             }
         }
     }
+    proof fn reach_extend<I: ForeignIter<T>>(self, source: I) requires self.wf(), self.position == 0, !polled_after_none(source.returned()), source.inv(), { assert(false); } /*OB:canary.extend:*/
 
     // extracted from src/internal.rs:92  `fn is_full(&self) -> bool`
     pub fn is_full(&self) -> (r: bool)
@@ -250,6 +252,7 @@ impl<T, N: ArrayLength> IntrusiveArrayBuilder<T, N> {
         assert(self.position == N::n()) /*OB:finish.debug-assertion-builder-is-full:C04*/;
         self.array
     }
+    proof fn reach_finish(self) requires self.wf(), self.position == N::n(), { assert(false); } /*OB:canary.finish:*/
 
     // extracted from src/internal.rs:111  `fn drop(&mut self)`
     pub fn drop_impl(&mut self)
@@ -262,6 +265,7 @@ impl<T, N: ArrayLength> IntrusiveArrayBuilder<T, N> {
             self.array.drop_range(0, self.position);
         }
     }
+    proof fn reach_drop_impl(self) requires self.wf(), { assert(false); } /*OB:canary.drop_impl:*/
 
 }
 
@@ -275,6 +279,7 @@ impl<T, N: ArrayLength> IntrusiveArrayBuilder<T, N> {
     {
         assume_init_read(array)
     }
+    proof fn reach_array_assume_init<T, N: ArrayLength>(array: Slots<T, N>) requires array.ok(), array.all_live(), { assert(false); } /*OB:canary.array_assume_init:*/
 
     // extracted from src/lib.rs:642  `fn try_from_iter<I>(iter: I) -> Result<Self, LengthError> where I: IntoIterator<Item = T>,`
     pub fn try_from_iter<T, N: ArrayLength, I: ForeignIter<T>>(iter: &mut I) -> (ret: Result<GenericArray<T, N>, LengthError>)
@@ -326,6 +331,7 @@ impl<T, N: ArrayLength> IntrusiveArrayBuilder<T, N> {
             Ok({ let array = builder.finish(); ({ proof { assert(array.all_live()); assert forall|k: int| 0 <= k < N::n() implies (#[trigger] iter.returned()[k]) == Some(array.view()[k].unwrap()) by { assert(iter.returned()[k] == r1[k]); assert(r1[0 + k] == Some(b1[k])); } } array_assume_init(array) }) })
         }
     }
+    proof fn reach_try_from_iter<T, N: ArrayLength, I: ForeignIter<T>>(iter: I) requires iter.returned().len() == 0, iter.inv(), { assert(false); } /*OB:canary.try_from_iter:*/
 
     // extracted from src/lib.rs:283  `fn generate<F>(mut f: F) -> GenericArray<T, N> where F: FnMut(usize) -> T,`
     pub fn generate<T, N: ArrayLength, F: Foreign1<usize, T>>(f: &mut F) -> (ret: GenericArray<T, N>)
@@ -366,6 +372,7 @@ impl<T, N: ArrayLength> IntrusiveArrayBuilder<T, N> {
             ({ proof { assert(array.all_live()); assert forall|k: int| 0 <= k < N::n() implies array.view()[k].unwrap() == (#[trigger] f.log()[k]).1 by { assert(f.log()[k].1 == b1[k]); } } array_assume_init(array) })
         }
     }
+    proof fn reach_generate<T, N: ArrayLength, F: Foreign1<usize, T>>(f: F) requires f.log().len() == 0, { assert(false); } /*OB:canary.generate:*/
 
     // extracted from src/impl_alloc.rs:141  `fn generate<F>(mut f: F) -> Self::Sequence where F: FnMut(usize) -> T,`
     pub fn generate_boxed<T, N: ArrayLength, F: Foreign1<usize, T>>(f: &mut F) -> (ret: GenericArray<T, N>)
@@ -406,6 +413,7 @@ impl<T, N: ArrayLength> IntrusiveArrayBuilder<T, N> {
             ({ proof { assert(array.all_live()); assert forall|k: int| 0 <= k < N::n() implies array.view()[k].unwrap() == (#[trigger] f.log()[k]).1 by { assert(f.log()[k].1 == b1[k]); } } box_assume_init(array) })
         }
     }
+    proof fn reach_generate_boxed<T, N: ArrayLength, F: Foreign1<usize, T>>(f: F) requires f.log().len() == 0, { assert(false); } /*OB:canary.generate_boxed:*/
 
 // ===== extracted: src/internal.rs ArrayConsumer =====
 // rule R-slots: `array: ManuallyDrop<GenericArray<T, N>>` becomes the slot ledger
@@ -430,6 +438,7 @@ impl<T, N: ArrayLength> ArrayConsumer<T, N> {
             array: array.slots, position: 0,
         }
     }
+    proof fn reach_new(array: GenericArray<T, N>) requires array.slots.ok(), array.slots.all_live(), { assert(false); } /*OB:canary.consumer_new:*/
 
     // extracted from src/internal.rs:146  `fn drop(&mut self)`
     pub fn drop_impl(&mut self)
@@ -442,6 +451,7 @@ impl<T, N: ArrayLength> ArrayConsumer<T, N> {
             self.array.drop_range(self.position, N::usize_());
         }
     }
+    proof fn reach_drop_impl(self) requires self.wf(), { assert(false); } /*OB:canary.consumer_drop:*/
 
 }
 
@@ -460,6 +470,7 @@ impl<T, N: ArrayLength> ArrayConsumer<T, N> {
             Ok(res) => PanicOr::Ret(res), Err(_) => PanicOr::Panic,
         }
     }
+    proof fn reach_from_iter<T, N: ArrayLength, I: ForeignIter<T>>(iter: I) requires iter.returned().len() == 0, iter.inv(), { assert(false); } /*OB:canary.from_iter:*/
 
     // extracted from src/lib.rs:423  `fn fold<U, F>(self, init: U, mut f: F) -> U where F: FnMut(U, T) -> U,`
     pub fn fold<T, U, N: ArrayLength, F: Foreign2<U, T, U>>(this: GenericArray<T, N>, init: U, f: &mut F) -> (ret: U)
@@ -495,6 +506,7 @@ impl<T, N: ArrayLength> ArrayConsumer<T, N> {
             }
         }
     }
+    proof fn reach_fold<T, U, N: ArrayLength, F: Foreign2<U, T, U>>(this: GenericArray<T, N>, init: U, f: F) requires this.slots.ok(), this.slots.all_live(), f.log().len() == 0, { assert(false); } /*OB:canary.fold:*/
 
 
 // ===== closure conversion (rule R-pipe) of the pipeline in FunctionalSequence::map =====
@@ -589,6 +601,7 @@ impl<T, U, N: ArrayLength, F: Foreign1<T, U>> ForeignIter<U> for MapPipe<T, U, N
             }
         }
     }
+    proof fn reach_map<T, U, N: ArrayLength, F: Foreign1<T, U>>(this: GenericArray<T, N>, f: F) requires this.slots.ok(), this.slots.all_live(), f.log().len() == 0, { assert(false); } /*OB:canary.map:*/
 
 proof fn canary() { assert(false); } /*OB:canary:*/
 } // verus!
